@@ -1148,9 +1148,9 @@ fn check(c: &Case, obs: &mut Obs) -> Verdict {
 
 fn subs() -> Vec<Box<dyn DynSub>> {
     vec![
-        Box::new(Sub { name: "cells", strategy: cells_cases, cases: (1500, 30_000), check, max_shrink_iters: 2500 }),
-        Box::new(Sub { name: "defined-names", strategy: names_cases, cases: (700, 12_000), check, max_shrink_iters: 2500 }),
-        Box::new(Sub { name: "chart-series", strategy: series_cases, cases: (400, 8_000), check, max_shrink_iters: 2500 }),
-        Box::new(Sub { name: "dirty", strategy: dirty_cases, cases: (300, 5_000), check, max_shrink_iters: 2500 }),
+        Box::new(Sub { name: "cells", strategy: cells_cases, cases: (2200, 30_000), check, max_shrink_iters: 2500 }),
+        Box::new(Sub { name: "defined-names", strategy: names_cases, cases: (1000, 12_000), check, max_shrink_iters: 2500 }),
+        Box::new(Sub { name: "chart-series", strategy: series_cases, cases: (600, 8_000), check, max_shrink_iters: 2500 }),
+        Box::new(Sub { name: "dirty", strategy: dirty_cases, cases: (400, 5_000), check, max_shrink_iters: 2500 }),
     ]
 }
